@@ -34,6 +34,17 @@ func verifC08Hover(tier int) {
 	pos := c08Cursor(d)
 	h, err := w.s.Hover(context.Background(), &protocol.HoverParams{TextDocumentPositionParams: w.tdp(pos)})
 	zzverif.Assert(err == nil, "hover: error")
+	// the cursor stands inside a tag name of the comment `ab:b, b:v, b:wxyz`: the hover (the server
+	// answers tag hovers everywhere else) must be about THAT tag, i.e. its range is the leaf under
+	// the cursor - a tag whose range was computed somewhere else would not be found here
+	for li := range d.leaves {
+		l := &d.leaves[li]
+		if l.kind == c08KTagName && (l.name == "ab" || l.name == "b") && uint32(l.line) == pos.Line &&
+			uint32(l.s) <= pos.Character && pos.Character < uint32(l.e) && !d.hasAstral(l.line) {
+			ok := h != nil && h.Range != nil && d.covers(*h.Range, c08KTagName) == li
+			zzverif.Assert(ok, "hover: the cursor is on a tag name but the answer is not about that tag")
+		}
+	}
 	if h == nil || h.Range == nil {
 		zzverif.Reach("C08.hover.none")
 		return
@@ -57,6 +68,13 @@ func verifC08Hover(tier int) {
 	}
 	zzverif.Assert(kind >= 0, "hover: unknown hover content")
 	c08Covers(d, *h.Range, "hover", kind)
+	// what the hover says it is about is the text its range covers (tag names and concrete tag values)
+	if li := d.covers(*h.Range, kind); li >= 0 && (kind == c08KTagName || kind == c08KTagValue) {
+		name := d.leaves[li].name
+		if name == "ab" || name == "b" || name == "wxyz" || name == "k" || name == "date" {
+			zzverif.Assert(strings.Contains(v, "`"+name+"`"), "hover: the content names another tag / value than the text its range covers")
+		}
+	}
 	// also when a known class explains the columns: the range is on the cursor's line and contains the cursor
 	c08AtCursor(*h.Range, pos, "hover")
 	zzverif.Reach("C08.hover.range")
